@@ -14,6 +14,7 @@ import (
 
 	"github.com/vimeo/dials"
 	"github.com/vimeo/dials/decoders/cue"
+	jsondec "github.com/vimeo/dials/decoders/json"
 	"github.com/vimeo/dials/decoders/toml"
 	"github.com/vimeo/dials/decoders/yaml"
 	"github.com/vimeo/dials/ptrify"
@@ -55,6 +56,15 @@ type c16RegP15b struct {
 	Log struct {
 		Level int `dialspflagshort:"l"`
 	} `dialsalias:"logging"`
+}
+type c16RegP16Item struct {
+	A      int
+	hidden int
+	C      string
+}
+type c16RegP16 struct {
+	Name  string
+	Items []c16RegP16Item
 }
 type c16RegP08a struct {
 	NInt
@@ -183,6 +193,8 @@ var c16RegCases = []c16RegCase{
 	{"P07", "struct{ A int `dialspflagshort:\"ab\"` }, no arguments", "pflag.NewSetWithArgs", "err", regFlag[c16RegP07](nil, true)},
 	{"P15", "struct{ A, B int `dialspflagshort:\"v\"` }, no arguments", "pflag.NewSetWithArgs", "err", regFlag[c16RegP15a](nil, true)},
 	{"P15", "struct{ Log struct{ Level int `dialspflagshort:\"l\"` } `dialsalias:\"logging\"` }, -l 3", "pflag.NewSetWithArgs", "err", regFlag[c16RegP15b]([]string{"-l", "3"}, true)},
+	{"P16", "struct{ Name string; Items []struct{ A int; hidden int; C string } }, JSON document with two elements", "decoder/json", "ok", regDecode[c16RegP16](&jsondec.Decoder{}, `{"Name":"x","Items":[{"A":1,"C":"c"},{"A":2}]}`)},
+	{"P16", "the same type, YAML document with one element", "decoder/yaml", "ok", regDecode[c16RegP16](&yaml.Decoder{}, "name: x\nitems:\n- a: 1\n  c: c\n")},
 	{"P08", "struct{ NInt; B int } (embedded named scalar), yaml FlattenAnonymous, document `b: 1`", "decoder/yaml-flatten", "ok", regDecode[c16RegP08a](&yaml.Decoder{FlattenAnonymous: true}, "b: 1\n")},
 	{"P08", "struct{ time.Time }, chain text-unmarshaler + anonymous-flatten + string-cast, nothing filled", "transform.ReverseTranslate", "", func() error {
 		_, dt := regType[c16RegP08b]()
